@@ -18,6 +18,13 @@
 // premises of the theorems (argument names unique per definition, executable document) hold on the case.
 // real == M is the correspondence; M == S is then the theorem.
 //
+// The wrapped visitor of the second real walk is drawn from several SHAPES of *VisitorOptions (mkShape): generic
+// enter+leave, enter-only, leave-only, KindFuncMap entries with only Kind / only Enter / only Leave / random bits for a
+// random subset of kinds (also over generic functions), EnterKindMap / LeaveKindMap forms, a mix of all. TypeInfo must be
+// entered and left at every node whatever callbacks exist (theorem typeinfo_independent_of_handler_set): every callback
+// that fires — slot (K KE KL E L EM LM), node, six getters — must equal, in order, what M (visitO with the same option
+// set and skip list, GetVisitFn's precedence modelled) produces, and after the walk the getters must be nil.
+//
 // Documents: gen.ValidDoc and the same IR after 1-3 typed mutations (unknown fields / types / directives, wrong
 // literals, variables and wrong-kind literals at NESTED positions of list / input-object literals, several faults in
 // one literal …) over gen.SchemaGen schemas with custom directives, disjoint abstract types and list-shaped arguments.
@@ -93,15 +100,107 @@ func num(x interface{}) int {
 type realRun struct {
 	out        map[string]string
 	order      []string
-	seq        []string // canonical rows in visiting order
+	seq        []string // canonical rows in visiting order (enter-type callbacks)
+	events     []string // every callback that fired: canonical [slot, row...]
 	skipped    [][]interface{}
 	leaveDiffs []string
 	finalState string // the six getters after the walk ("" if all nil)
 	panicked   string
 }
 
+// shapeT: which callbacks the wrapped *VisitorOptions has (wire format of the driver's "shape")
+type shapeT struct {
+	Form       string             `json:"form"`
+	Enter      bool               `json:"enter"`
+	Leave      bool               `json:"leave"`
+	KindFuncs  map[string][3]bool `json:"kindFuncs"` // kind -> Kind?, Enter?, Leave?
+	EnterKinds []string           `json:"enterKinds"`
+	LeaveKinds []string           `json:"leaveKinds"`
+}
+
+var fullShape = &shapeT{Form: "enter+leave", Enter: true, Leave: true, KindFuncs: map[string][3]bool{}}
+
+func observedKinds() []string {
+	ks := make([]string, 0, len(observed))
+	for k := range observed {
+		ks = append(ks, k)
+	}
+	sort.Strings(ks)
+	return ks
+}
+
+// mkShape draws the wrapped visitor's shape: generic enter+leave / enter-only / leave-only, KindFuncMap entries with
+// Kind only / Enter only / Leave only / random bits for a random subset of kinds, EnterKindMap / LeaveKindMap forms, a mix.
+func mkShape(r *hx.Rng) *shapeT {
+	sh := &shapeT{KindFuncs: map[string][3]bool{}, EnterKinds: []string{}, LeaveKinds: []string{}}
+	subset := func() []string {
+		var out []string
+		for _, k := range observedKinds() {
+			if r.Chance(1, 2) {
+				out = append(out, k)
+			}
+		}
+		return out
+	}
+	switch r.Intn(12) {
+	case 0, 1:
+		return fullShape
+	case 2:
+		sh.Form, sh.Enter = "enter-only", true
+	case 3:
+		sh.Form, sh.Leave = "leave-only", true
+	case 4:
+		sh.Form = "kindfuncs-kind-only"
+		for _, k := range subset() {
+			sh.KindFuncs[k] = [3]bool{true, false, false}
+		}
+	case 5:
+		sh.Form = "kindfuncs-enter-only"
+		for _, k := range subset() {
+			sh.KindFuncs[k] = [3]bool{false, true, false}
+		}
+	case 6:
+		sh.Form = "kindfuncs-leave-only"
+		for _, k := range subset() {
+			sh.KindFuncs[k] = [3]bool{false, false, true}
+		}
+	case 7:
+		sh.Form = "kindfuncs-mixed-over-generic"
+		sh.Enter, sh.Leave = r.Chance(1, 2), r.Chance(1, 2)
+		for _, k := range subset() {
+			sh.KindFuncs[k] = [3]bool{r.Chance(1, 2), r.Chance(1, 2), r.Chance(1, 2)}
+		}
+	case 8:
+		sh.Form = "enterkindmap+leavekindmap"
+		sh.EnterKinds, sh.LeaveKinds = subset(), subset()
+	case 9:
+		sh.Form = "enterkindmap-only"
+		sh.EnterKinds = subset()
+	case 10:
+		sh.Form = "leavekindmap-only"
+		sh.LeaveKinds = subset()
+	default:
+		sh.Form = "mixed-all"
+		sh.Enter, sh.Leave = r.Chance(1, 3), r.Chance(1, 3)
+		for _, k := range subset() {
+			if r.Chance(1, 2) {
+				sh.KindFuncs[k] = [3]bool{r.Chance(1, 2), r.Chance(1, 2), r.Chance(1, 2)}
+			}
+		}
+		sh.EnterKinds, sh.LeaveKinds = subset(), subset()
+	}
+	if sh.EnterKinds == nil {
+		sh.EnterKinds = []string{}
+	}
+	if sh.LeaveKinds == nil {
+		sh.LeaveKinds = []string{}
+	}
+	return sh
+}
+
 // runReal walks the document with the real TypeInfo; skip(kind, start) tells the inner visitor to SKIP that node.
-func runReal(schema *graphql.Schema, doc *ast.Document, skip func(kind string, start int) bool) (res realRun) {
+// The wrapped visitor has exactly the callbacks `sh` lists; each records its slot name (K KE KL / E L / EM LM).
+func runReal(schema *graphql.Schema, doc *ast.Document, sh *shapeT, skip func(kind string, start int) bool) (res realRun) {
 	res.out = map[string]string{}
 	defer func() {
 		if r := recover(); r != nil {
@@ -125,9 +224,10 @@ func runReal(schema *graphql.Schema, doc *ast.Document, skip func(kind string, s
 		}
 		return []interface{}{renderType(ti.Type()), parent, renderType(ti.InputType()), fd, dir, arg}
 	}
-	var open []string // rows of the entered, not yet left, observed nodes
-	inner := &visitor.VisitorOptions{
-		Enter: func(p visitor.VisitFuncParams) (string, interface{}) {
+	var open []string // rows of the entered, not yet left, observed nodes (only tracked for the full generic shape)
+	paired := sh.Enter && sh.Leave && len(sh.KindFuncs) == 0
+	enterCB := func(slot string) visitor.VisitFunc {
+		return func(p visitor.VisitFuncParams) (string, interface{}) {
 			n, ok := p.Node.(ast.Node)
 			if !ok || isNil(n) {
 				return visitor.ActionNoChange, nil
@@ -143,6 +243,7 @@ func runReal(schema *graphql.Schema, doc *ast.Document, skip func(kind string, s
 				res.out[kk] = row
 				res.order = append(res.order, kk)
 				res.seq = append(res.seq, row)
+				res.events = append(res.events, hx.Canon(append([]interface{}{slot}, r...)))
 				if skip != nil && skip(k, n.GetLoc().Start) {
 					res.skipped = append(res.skipped, []interface{}{k, n.GetLoc().Start})
 					return visitor.ActionSkip, nil
@@ -150,26 +251,67 @@ func runReal(schema *graphql.Schema, doc *ast.Document, skip func(kind string, s
 				open = append(open, row)
 			}
 			return visitor.ActionNoChange, nil
-		},
-		Leave: func(p visitor.VisitFuncParams) (string, interface{}) {
+		}
+	}
+	leaveCB := func(slot string) visitor.VisitFunc {
+		return func(p visitor.VisitFuncParams) (string, interface{}) {
 			n, ok := p.Node.(ast.Node)
 			if !ok || isNil(n) {
 				return visitor.ActionNoChange, nil
 			}
 			k := n.GetKind()
 			if observed[k] && n.GetLoc() != nil {
-				row := hx.Canon(append(rec{k, n.GetLoc().Start, n.GetLoc().End}, getters()...))
-				if len(open) == 0 {
-					res.leaveDiffs = append(res.leaveDiffs, "leave without enter: "+row)
-				} else {
-					if open[len(open)-1] != row {
-						res.leaveDiffs = append(res.leaveDiffs, "at leave "+row+" at enter "+open[len(open)-1])
+				r := append(rec{k, n.GetLoc().Start, n.GetLoc().End}, getters()...)
+				row := hx.Canon(r)
+				res.events = append(res.events, hx.Canon(append([]interface{}{slot}, r...)))
+				if paired {
+					if len(open) == 0 {
+						res.leaveDiffs = append(res.leaveDiffs, "leave without enter: "+row)
+					} else {
+						if open[len(open)-1] != row {
+							res.leaveDiffs = append(res.leaveDiffs, "at leave "+row+" at enter "+open[len(open)-1])
+						}
+						open = open[:len(open)-1]
 					}
-					open = open[:len(open)-1]
 				}
 			}
 			return visitor.ActionNoChange, nil
-		},
+		}
+	}
+	inner := &visitor.VisitorOptions{}
+	if sh.Enter {
+		inner.Enter = enterCB("E")
+	}
+	if sh.Leave {
+		inner.Leave = leaveCB("L")
+	}
+	if len(sh.KindFuncs) > 0 {
+		inner.KindFuncMap = map[string]visitor.NamedVisitFuncs{}
+		for k, b := range sh.KindFuncs {
+			var nf visitor.NamedVisitFuncs
+			if b[0] {
+				nf.Kind = enterCB("K")
+			}
+			if b[1] {
+				nf.Enter = enterCB("KE")
+			}
+			if b[2] {
+				nf.Leave = leaveCB("KL")
+			}
+			inner.KindFuncMap[k] = nf
+		}
+	}
+	if len(sh.EnterKinds) > 0 {
+		inner.EnterKindMap = map[string]visitor.VisitFunc{}
+		for _, k := range sh.EnterKinds {
+			inner.EnterKindMap[k] = enterCB("EM")
+		}
+	}
+	if len(sh.LeaveKinds) > 0 {
+		inner.LeaveKindMap = map[string]visitor.VisitFunc{}
+		for _, k := range sh.LeaveKinds {
+			inner.LeaveKindMap[k] = leaveCB("LM")
+		}
 	}
 	visitor.Visit(doc, visitor.VisitWithTypeInfo(ti, inner), nil)
 	if fs := hx.Canon(getters()); fs != hx.Canon([]interface{}{"nil", "nil", "nil", "nil", "nil", "nil"}) {
@@ -187,6 +329,19 @@ func modelSeq(rows []rec) []string {
 		}
 		r[1], r[2] = num(r[1]), num(r[2])
 		out = append(out, hx.Canon(r))
+	}
+	return out
+}
+
+// modelEvents: M's [slot, row...] events of the observed kinds
+func modelEvents(evs []rec) []string {
+	var out []string
+	for _, e := range evs {
+		if len(e) < 4 || !observed[fmt.Sprint(e[1])] {
+			continue
+		}
+		e[2], e[3] = num(e[2]), num(e[3])
+		out = append(out, hx.Canon(e))
 	}
 	return out
 }
@@ -230,7 +385,7 @@ func main() {
 		return
 	}
 	defer drv.Close()
-	run.Res.Rule = "schemas from gen.SchemaGen + custom directives + disjoint abstract types + list-shaped arguments; documents = gen.ValidDoc and the same document after 1-3 typed mutations; the real TypeInfo is read at every Enter of visitor.VisitWithTypeInfo and compared node by node with the top-down model S and, as a row sequence, with the stack machine M (lean/GqlModel/TypeInfoStacks.lean); a second walk skips random nodes and is compared with M skipping the same nodes; at every Leave the getters must equal those at Enter and after the walk be nil; non-trivial = >= 8 observed nodes, at least one with a non-nil input type or a non-nil parent type; distinct by (schema, document text)"
+	run.Res.Rule = "schemas from gen.SchemaGen + custom directives + disjoint abstract types + list-shaped arguments; documents = gen.ValidDoc and the same document after 1-3 typed mutations; the real TypeInfo is read at every Enter of visitor.VisitWithTypeInfo and compared node by node with the top-down model S and, as a row sequence, with the stack machine M (lean/GqlModel/TypeInfoStacks.lean); a second walk uses a wrapped visitor of a random shape (enter+leave, enter-only, leave-only, KindFuncMap Kind/Enter/Leave subsets, Enter/LeaveKindMap, mixed), skips random nodes, and every callback that fires (slot, node, getters) is compared in order with M run with the same option set and skip list; at every Leave the getters must equal those at Enter and after the walk be nil; non-trivial = >= 8 observed nodes, at least one with a non-nil input type or a non-nil parent type; distinct by (schema, document text)"
 
 	one := func(c caseT) {
 		b, err := gq.Build(c.Schema, hooks)
@@ -245,7 +400,7 @@ func main() {
 			return
 		}
 		var problems []string
-		rr := runReal(&b.Schema, doc, nil)
+		rr := runReal(&b.Schema, doc, fullShape, nil)
 		real, order := rr.out, rr.order
 		if rr.panicked != "" {
 			problems = append(problems, "real walk panicked: "+rr.panicked)
@@ -266,15 +421,18 @@ func main() {
 			}
 			return decided[k]
 		}
-		rs := runReal(&b.Schema, doc, skip)
+		shape := mkShape(hx.NewRng(c.SkipSeed ^ 0x5bd1e995))
+		rs := runReal(&b.Schema, doc, shape, skip)
+		run.Tag("wrapped-visitor:" + shape.Form)
 		var resp struct {
 			Recs       []rec `json:"recs"`
 			MRecs      []rec `json:"mrecs"`
 			MRecsSkip  []rec `json:"mrecsSkip"`
+			MEvents    []rec `json:"mevents"`
 			ArgsUnique bool  `json:"argsUnique"`
 			Executable bool  `json:"executable"`
 		}
-		req := map[string]interface{}{"typeinfo": true, "schema": c.Schema, "doc": astjson.Document(doc)}
+		req := map[string]interface{}{"typeinfo": true, "schema": c.Schema, "doc": astjson.Document(doc), "shape": shape}
 		if len(rs.skipped) > 0 {
 			req["skip"] = rs.skipped
 		}
@@ -345,8 +503,14 @@ func main() {
 		if rs.finalState != "" && rs.panicked == "" {
 			problems = append(problems, "after the walk with skips the TypeInfo is not empty again: "+rs.finalState)
 		}
-		if skipped > 0 && rs.panicked == "" {
+		if skipped > 0 && rs.panicked == "" && shape == fullShape {
 			if d := seqDiff("with skips, stack machine M differs from the real TypeInfo", rs.seq, modelSeq(resp.MRecsSkip)); d != "" {
+				problems = append(problems, d)
+			}
+		}
+		// whatever callbacks the wrapped visitor has: every callback that fires (slot, node, six getters), in order == M
+		if rs.panicked == "" {
+			if d := seqDiff("wrapped visitor "+shape.Form+": callbacks / type info differ from the stack machine M", rs.events, modelEvents(resp.MEvents)); d != "" {
 				problems = append(problems, d)
 			}
 		}
